@@ -56,6 +56,7 @@ var whitelist = []FuncSpec{
 	{"pkg/provider/serviceprovider", "ServiceProvider", "GetEntityID"},
 	{"pkg/provider", "", "checkRequestRequiredContent"},
 	{"pkg/provider", "", "verifyRedirectSignature"},
+	{"pkg/provider", "", "verifyPostSignature"},
 	{"pkg/provider", "", "BuildRedirectQuery"},
 	{"pkg/provider", "", "relativeEndpoint"},
 	{"pkg/provider", "", "absoluteEndpoint"},
@@ -70,6 +71,18 @@ var whitelist = []FuncSpec{
 	{"pkg/provider/xml", "", "GetCertsFromKeyDescriptors"},
 	{"pkg/provider/xml", "", "InflateAndDecode"},
 	{"pkg/provider", "", "getResponseCert"},
+}
+
+// extraFields are struct fields the hand-written handler models read although no translated function does.
+var extraFields = map[string][]string{
+	"pkg/provider/xml/samlp.AuthnRequestType":               {"ProtocolBinding", "Signature", "AssertionConsumerServiceURL"},
+	"pkg/provider/xml/md.SPSSODescriptorType":               {"AssertionConsumerService", "SingleLogoutService"},
+	"pkg/provider/serviceprovider.ServiceProvider":          {"ID"},
+	"pkg/provider/xml/samlp.LogoutRequestType":              {"Id", "IssueInstant", "NotOnOrAfter", "Issuer", "NameID"},
+	"pkg/provider/xml/samlp.AttributeQueryType":             {"Id", "Issuer", "Signature", "Subject", "Attribute"},
+	"pkg/provider/xml/saml.SubjectType":                     {"NameID"},
+	"pkg/provider/xml/md.IDPSSODescriptorType":              {"SingleLogoutService"},
+	"pkg/provider/xml/md.AttributeAuthorityDescriptorType":  {"AttributeService"},
 }
 
 type world struct {
@@ -142,6 +155,7 @@ func main() {
 		w.pkgs[strings.TrimPrefix(p.PkgPath, modPath)] = p
 	}
 	w.collect()
+	w.useExtraFields()
 	for _, spec := range whitelist {
 		f := w.funcs[spec.key()]
 		if f == nil || f.failed != "" {
@@ -183,6 +197,35 @@ func writeIfChanged(path, content string) {
 	}
 	must(os.MkdirAll(filepath.Dir(path), 0o755))
 	must(os.WriteFile(path, []byte(content), 0o644))
+}
+
+func (w *world) useExtraFields() {
+	for full, fields := range extraFields {
+		i := strings.LastIndex(full, ".")
+		p := w.pkgs[full[:i]]
+		if p == nil {
+			continue
+		}
+		obj := p.Types.Scope().Lookup(full[i+1:])
+		if obj == nil {
+			continue
+		}
+		n, ok := obj.Type().(*types.Named)
+		if !ok {
+			continue
+		}
+		st, ok := n.Underlying().(*types.Struct)
+		if !ok {
+			continue
+		}
+		for _, f := range fields {
+			for j := 0; j < st.NumFields(); j++ {
+				if st.Field(j).Name() == f {
+					w.useField(n, f)
+				}
+			}
+		}
+	}
 }
 
 // collect finds the declarations of the whitelist.
